@@ -351,10 +351,12 @@ where
                                     }
                                 }
 
+                                // a range whose end precedes its start selects nothing; the count is taken in 64 bits so it cannot overflow
+                                let count = if end < start { 0 } else { (*end as i64 - *start as i64) as usize + 1 };
                                 top_level_con_items
                                     .iter()
                                     .skip(*start as usize)
-                                    .take((end - start) as usize + 1)
+                                    .take(count)
                                     .map(usize::clone)
                                     .for_each(|i| items.push(i));
                             }
